@@ -753,8 +753,21 @@ fn alloc_budget(fc: &FaultCx, len: usize) -> usize {
 
 /// one faulted input: the C10 oracle (total, bounded) or the C19 oracle (nothing retained)
 fn fault_one(col: &mut Collector, fc: &FaultCx, e: &Entry, what: &str, bytes: &[u8], must_fail: bool, mode: Mode, case: &dyn Fn() -> Value) {
-    for buf in [BufKind::Bytes, BufKind::Chain(bytes.len() / 2)] {
-        if buf != BufKind::Bytes && (what == "all-strings" || fc.prop == "C19" && matches!(mode, Mode::LenDelim { .. })) {
+    fault_splits(col, fc, e, what, bytes, must_fail, mode, &[bytes.len() / 2], case)
+}
+
+/// `splits`: offsets at which the input is additionally delivered as two chunks
+#[allow(clippy::too_many_arguments)]
+fn fault_splits(col: &mut Collector, fc: &FaultCx, e: &Entry, what: &str, bytes: &[u8], must_fail: bool, mode: Mode, splits: &[usize], case: &dyn Fn() -> Value) {
+    let mut bufs = vec![BufKind::Bytes];
+    for s in splits {
+        let k = BufKind::Chain((*s).min(bytes.len()));
+        if !bufs.contains(&k) {
+            bufs.push(k);
+        }
+    }
+    for buf in bufs {
+        if buf != BufKind::Bytes && (fc.prop == "C19" && matches!(mode, Mode::LenDelim { .. })) {
             continue;
         }
         col.evaluations += 1;
@@ -884,7 +897,7 @@ pub fn faults(cx: &Ctx, col: &mut Collector, prop: &str) {
                 for b in bits {
                     let mut x = bytes.clone();
                     x[pos] ^= 1 << b;
-                    fault_one(col, &fc, e, "bit-flip", &x, false, Mode::Decode, &|| mk(json!({"fault": "flip", "at": pos, "bit": b, "bytes": hex(&bytes)})));
+                    fault_splits(col, &fc, e, "bit-flip", &x, false, Mode::Decode, &[x.len() / 2, pos, pos + 1], &|| mk(json!({"fault": "flip", "at": pos, "bit": b, "bytes": hex(&bytes)})));
                 }
                 pos += bstep;
             }
@@ -898,7 +911,30 @@ pub fn faults(cx: &Ctx, col: &mut Collector, prop: &str) {
                     x.extend_from_slice(&bytes[off + w..]);
                     let beyond = beyond && newlen > (x.len() - off - new_w) as u64;
                     let what = if beyond { format!("len-beyond-input:{}", name) } else { format!("len-corrupt:{}", name) };
-                    fault_one(col, &fc, e, &what, &x, beyond, Mode::Decode, &|| mk(json!({"fault": "length", "at": off, "new": newlen.to_string(), "bytes": hex(&bytes)})));
+                    fault_splits(col, &fc, e, &what, &x, beyond, Mode::Decode, &[x.len() / 2, *off, off + 1, off + new_w], &|| mk(json!({"fault": "length", "at": off, "new": newlen.to_string(), "bytes": hex(&bytes)})));
+                }
+                // the prefix replaced by a varint that never ends within 10 bytes (11 and 12 bytes
+                // long, continuation bytes 0xff or 0x80), delivered contiguously and split at every
+                // offset from the start of the varint to its end
+                for (oname, cont, n, last) in [("overlong11-ff", 0xffu8, 10usize, 0x01u8), ("overlong11-80", 0x80, 10, 0x00), ("overlong12-ff", 0xff, 11, 0x7f), ("overlong10-ff-02", 0xff, 9, 0x02)] {
+                    let mut x = bytes[..*off].to_vec();
+                    x.extend(std::iter::repeat(cont).take(n));
+                    x.push(last);
+                    x.extend_from_slice(&bytes[off + w..]);
+                    let splits: Vec<usize> = (off.saturating_sub(1)..=off + n + 1).collect();
+                    let what = format!("len-varint:{}", oname);
+                    fault_splits(col, &fc, e, &what, &x, true, Mode::Decode, &splits, &|| mk(json!({"fault": "overlong-length", "at": off, "kind": oname, "bytes": hex(&bytes)})));
+                }
+            }
+            // the first key of the message replaced by an over-long varint
+            if !bytes.is_empty() {
+                for (oname, cont, n, last) in [("overlong11-ff", 0xffu8, 10usize, 0x01u8), ("overlong11-80", 0x80, 10, 0x00)] {
+                    let mut x: Vec<u8> = std::iter::repeat(cont).take(n).collect();
+                    x.push(last);
+                    x.extend_from_slice(&bytes[1..]);
+                    let splits: Vec<usize> = (1..=n + 1).collect();
+                    let what = format!("key-varint:{}", oname);
+                    fault_splits(col, &fc, e, &what, &x, true, Mode::Decode, &splits, &|| mk(json!({"fault": "overlong-key", "kind": oname, "bytes": hex(&bytes)})));
                 }
             }
         }
@@ -950,7 +986,8 @@ pub fn faults(cx: &Ctx, col: &mut Collector, prop: &str) {
                 continue;
             }
             for s in chunk {
-                fault_one(col, &fc, e, "all-strings", s, false, Mode::Decode, &|| json!({"doc": e.doc, "cfg": e.cfg, "ty": e.fq, "show": hex(s), "x": {"fault": "string"}}));
+                let splits: Vec<usize> = (1..s.len()).collect();
+                fault_splits(col, &fc, e, "all-strings", s, false, Mode::Decode, &splits, &|| json!({"doc": e.doc, "cfg": e.cfg, "ty": e.fq, "show": hex(s), "x": {"fault": "string"}}));
             }
         }
     }
